@@ -74,6 +74,17 @@ func main() {
 			os.Exit(3)
 		}
 	}
+	if *fpFlag {
+		// the reviewed tree as it is: no normalisation (a function added by a reviewed fix: commit must be recorded, not inlined)
+		raw, err := an.Load(*repo, overlay)
+		if err != nil {
+			fmt.Fprintf(os.Stderr, "mwcheck: cannot analyse %s: %v\n", *repo, err)
+			os.Exit(2)
+		}
+		b, _ := json.MarshalIndent(raw.Anchors(), "", " ")
+		fmt.Println(string(b))
+		return
+	}
 	p, err := norm.Load(*repo, overlay)
 	if err != nil {
 		fmt.Fprintf(os.Stderr, "mwcheck: cannot analyse %s: %v\n", *repo, err)
